@@ -127,6 +127,57 @@ def write_inst_init():
     return ["O1722.Inst.Init." + x for x in names if not x.startswith("find_")]
 
 
+def write_inst_legacy(lean_dir=None):
+    """Gen/InstLegacy.lean: per deprecated by-identifier wrapper (avtp_*_pdu_get / _set) the statement that
+    RUNNING its C text gives what its record's meaning (LegacyAcc.runGet / runSet) gives, by applying
+    legacyGet_code / legacySet_code to the regenerated record, the regenerated body and the program look-up
+    of the current-API accessor it forwards to."""
+    lean_dir = lean_dir or LEAN
+    data = open(os.path.join(lean_dir, "O1722", "Gen", "Data.lean")).read()
+    src = ["/- REGENERATED instance obligations: legacy wrapper records (Gen/Data.lean) = C text (Gen/Cir.lean) -/",
+           "import O1722.Refine.Legacy", "import O1722.Gen.Data", "", "namespace O1722.Inst.Legacy", "open O1722 O1722.C O1722.Refine", ""]
+    names = []
+    found = set()
+    for m in re.finditer(r"^def (\w+) : GenFormat where(.*?)(?=^def |\Z)", data, re.S | re.M):
+        fmt, body = m.group(1), m.group(2)
+        lm = re.search(r"legacy := \[(.*?)\]\n  payloadAcc", body, re.S)
+        if not lm:
+            continue
+        recs = re.findall(r'\{ fn := "(\w+)", isGet := (true|false), fwd := "(\w+)"', lm.group(1))
+        for k, (fn, is_get, fwd) in enumerate(recs):
+            if fwd not in found:
+                found.add(fwd)
+                src.append("set_option maxRecDepth 16384 in")
+                src.append('theorem find_%s (e : Endian) : findFn (Gen.Cir.prog e) "%s" = some Gen.Cir.%s := by cases e <;> rfl' % (fwd, fwd, fwd))
+            common_args = ("(e : Endian) (rom : Nat → Byte) (glob : String → Nat) (tb : Nat) (hrom : RomTable rom tb Gen.%s.table) "
+                           "(hglob : glob Gen.%s.tableName = tb) (pdu : Option Nat) "
+                           "(hpdu : ∀ p, pdu = some p → p ≠ 0 ∧ p + 1024 ≤ 18446744073709551616) (field : Nat) (hf : field < 4294967296) (m : Mem)" % (fmt, fmt))
+            if is_get == "true":
+                src.append('def x_%s : Getter := match Gen.%s.findGetter "%s" with | some x => x | none => ⟨"", "", 0, none, 0, 0, 0⟩' % (fn, fmt, fwd))
+            else:
+                src.append('def x_%s : Setter := match Gen.%s.findSetter "%s" with | some x => x | none => ⟨"", "", 0, none, 0, 0, 0, false⟩' % (fn, fmt, fwd))
+            if is_get == "true":
+                src.append("theorem legacy_%s %s (val : Option Nat) (hval : ∀ v, val = some v → v ≠ 0) :" % (fn, common_args))
+                src.append("    (exec (mkEnv e rom glob) 40 Gen.Cir.%s.body (mkFrame [pdu.getD 0, field, val.getD 0]) ⟨m, []⟩).map (fun r => (r.1, r.2.2.mem))" % fn)
+                src.append("      = ((Gen.%s.legacy[%d]'(by decide)).runGet Gen.%s e m pdu val field).map (fun r => (.ret (Ty.ofInt .i32 r.2), r.1)) :=" % (fmt, k, fmt))
+                src.append("  legacyGet_code e rom glob Gen.%s tb hrom (by decide) hglob (Gen.%s.legacy[%d]'(by decide)) Gen.Cir.%s (by decide)" % (fmt, fmt, k, fn))
+                src.append('    x_%s Gen.Cir.%s (by decide) (by decide) (find_%s e) (by decide) (by decide) (by decide) (by decide)' % (fn, fwd, fwd))
+                src.append("    pdu val hpdu hval field hf m (by decide)")
+            else:
+                src.append("theorem legacy_%s %s (value : Nat) (hv : value < 2 ^ (Gen.%s.legacy[%d]'(by decide)).valBits) :" % (fn, common_args, fmt, k))
+                src.append("    (exec (mkEnv e rom glob) 40 Gen.Cir.%s.body (mkFrame [pdu.getD 0, field, value]) ⟨m, []⟩).map (fun r => (r.1, r.2.2.mem))" % fn)
+                src.append("      = ((Gen.%s.legacy[%d]'(by decide)).runSet Gen.%s e m pdu field value).map (fun r => (.ret (Ty.ofInt .i32 r.2), r.1)) :=" % (fmt, k, fmt))
+                src.append("  legacySet_code e rom glob Gen.%s tb hrom (by decide) hglob (Gen.%s.legacy[%d]'(by decide)) Gen.Cir.%s (by decide)" % (fmt, fmt, k, fn))
+                src.append('    x_%s Gen.Cir.%s (by decide) (by decide) (find_%s e) (by decide) (by decide) (by decide) (by decide) (by decide)' % (fn, fwd, fwd))
+                src.append("    pdu hpdu field value hf hv m (by decide)")
+            src.append("")
+            names.append("legacy_" + fn)
+    src += ["end O1722.Inst.Legacy", ""]
+    with common.Lock("lake"):
+        write_if_changed(os.path.join(lean_dir, "O1722", "Gen", "InstLegacy.lean"), "\n".join(src))
+    return ["O1722.Inst.Legacy." + x for x in names]
+
+
 def refine_stage(rep, prop, modules, theorems, what):
     """Code-level stage: rebuild the refinement modules (proofs that the C text serialised into
     Gen/Cir.lean, run by the C semantics of CSem/Eval.lean, equals the hand Model and satisfies the
@@ -139,6 +190,8 @@ def refine_stage(rep, prop, modules, theorems, what):
         theorems = list(theorems) + write_inst_acc()
     if "O1722.Gen.InstInit" in modules:
         theorems = list(theorems) + write_inst_init()
+    if "O1722.Gen.InstLegacy" in modules:
+        theorems = list(theorems) + write_inst_legacy()
     if gen.get("failed") or gen.get("cir", {}).get("failed"):
         failed = list(theorems)
         log = gen.get("failed") or gen["cir"]["failed"]
@@ -165,6 +218,17 @@ def refine_stage(rep, prop, modules, theorems, what):
                         if a not in common.ALLOWED_AXIOMS:
                             rep.violation("axiom:%s:%s" % (t, a), {"kind": "unexpected-axiom", "theorem": t, "axiom": a}, no_input=True)
             rep.cov.setdefault("trusted_base", [])
+            # thorough tier: the toolchain's independent re-checker replays the code-level modules
+            if getattr(rep, "tier", "quick") == "thorough":
+                import subprocess
+                rechecked = rep.cov.setdefault("leanchecker_modules", [])
+                for m_ in modules:
+                    with common.Lock("lake"):
+                        r = subprocess.run(["lake", "env", "leanchecker", m_], cwd=LEAN, capture_output=True, text=True)
+                    rechecked.append(m_)
+                    if r.returncode != 0:
+                        failed.append("leanchecker:" + m_)
+                        log += "\nleanchecker %s:\n%s" % (m_, (r.stdout + r.stderr)[-1500:])
     rep.cov.setdefault("obligations", 0)
     rep.cov["obligations"] += len(theorems)
     rep.cov.setdefault("discharged", 0)
@@ -329,8 +393,14 @@ CODE_LEVEL = {
             "dedicated setter, each resolved in the program) leaves the memory Init.run describes — the object C04_format proves "
             "canonical; per-format obligations inits_<format> / lookups_<format> (the legacy initialisers stay with the translator's "
             "shape recognition)"),
-    "C11": (["O1722.Refine.Props"], ["O1722.Refine.C11_code"],
-            "the C text of Avtp_GetField/SetField on a NULL PDU or an out-of-range identifier: 0 / no effect, no memory access"),
+    "C11": (["O1722.Refine.Props", "O1722.Gen.InstLegacy"], ["O1722.Refine.C11_code", "O1722.Refine.legacySet_code", "O1722.Refine.legacyGet_code"],
+            "the C text of Avtp_GetField/SetField on a NULL PDU or an out-of-range identifier: 0 / no effect, no memory access; and the C "
+            "text of every deprecated avtp_*_pdu_get/_set = LegacyAcc.runGet/runSet (NULL PDU, NULL result pointer or out-of-range "
+            "identifier: -EINVAL and memory unchanged; otherwise 0 and the forwarded access), per-wrapper theorems legacy_<fn>"),
+    "C12": (["O1722.Gen.InstLegacy"], ["O1722.Refine.legacySet_code", "O1722.Refine.legacyGet_code"],
+            "the C text of every deprecated avtp_*_pdu_get/_set (argument checks, forwarded call resolved in the program, typed store "
+            "through the out-parameter) = LegacyAcc.runGet/runSet, the objects legacyGet_eq_current / legacySet_eq_current relate to the "
+            "current API; per-wrapper theorems legacy_<fn> (Gen/InstLegacy.lean)"),
     "C14": (["O1722.Refine.Props"], ["O1722.Refine.C14_code"],
             "the C text of Avtp_GetField/SetField with the little- and the big-endian form of Byteorder.h: same value, same bytes"),
     "C08": (["O1722.Refine.VssCalc"], ["O1722.Refine.C08_code_calc"],
